@@ -46,7 +46,8 @@ Early(s) ==
   ELSE IF s.cmd \in {"plugins_info_miss", "ext_info_miss"} THEN <<"NO_FILES_TO_SCAN", SchemeOf(s.sel)>>
   ELSE IF s.cmd \in {"plugins_none", "ext_none"} THEN <<"COMMAND_LINE_ERROR", SchemeOf(s.sel)>>
   ELSE IF s.cmd = "list_some" THEN <<"SUCCESS", SchemeOf(s.sel)>>
-  ELSE IF s.cmd \in {"list_none", "scan_missing", "fix_missing"} THEN <<"NO_FILES_TO_SCAN", SchemeOf(s.sel)>>
+  ELSE IF s.cmd \in {"list_none", "scan_missing", "fix_missing", "scan_good_missing", "fix_good_missing", "scan_good_noglob"}
+       THEN <<"NO_FILES_TO_SCAN", SchemeOf(s.sel)>>          \* a path in error: nothing is processed, wherever it stands in the list
   ELSE <<>>
 
 ModeOf(c) == CASE c = "scan" -> "scan" [] c = "fix" -> "fix" [] c = "stdin" -> "stdin" [] OTHER -> "other"
